@@ -17,7 +17,9 @@ pub struct World { pub files: Vec<(String, Vec<u8>)>, pub env: Vec<(String, Stri
 impl World { pub fn file_bytes(&self, p: &str) -> Option<Vec<u8>> { self.files.iter().find(|(n, _)| n == p).map(|(_, b)| b.clone()) } }
 
 #[derive(Clone, Debug, Default)]
-pub struct CliObs { pub exit: Option<i32>, pub signal: bool, pub timed_out: bool, pub stdout: Vec<u8>, pub stderr: String, pub files: Vec<(String, Vec<u8>)> }
+pub struct CliObs { pub exit: Option<i32>, pub signal: bool, pub timed_out: bool, pub stdout: Vec<u8>, pub stderr: String, pub files: Vec<(String, Vec<u8>)>,
+    /// peak resident set size of the child in KiB as seen in /proc/<pid>/status while it ran (only filled in by `run_kestrel_wired`; 0 = not measured)
+    pub peak_rss_kb: usize }
 impl CliObs {
     pub fn file(&self, p: &str) -> Option<&Vec<u8>> { self.files.iter().find(|(n, _)| n == p).map(|(_, b)| b) }
     pub fn error_line(&self) -> bool { self.stderr.lines().any(|l| l.starts_with("Error:")) }
@@ -193,6 +195,9 @@ pub struct Wiring { pub stdout: StdoutMode, pub links: Vec<(String, String)>, pu
 /// `kestrel` with an unusual but legal wiring: standard output on a full device (every write fails with ENOSPC), or on a pipe whose
 /// reader goes away after `n` bytes (EPIPE / SIGPIPE for the rest), and symbolic links pre-created in the working directory.
 /// For each link `l` the observation carries a pseudo-file `l@symlink` (present iff `l` is still a symbolic link afterwards).
+/// big named-pipe inputs get more time
+fn wiring_timeout(w: &Wiring) -> u64 { if w.fifos.iter().any(|(_, b)| b.len() > (8 << 20)) { 120 } else { 30 } }
+
 pub fn run_kestrel_wired(w: &World, args: &[String], wiring: &Wiring) -> CliObs {
     let dir = format!("/verif/.cache/tmp/{}-{}", std::process::id(), COUNTER.fetch_add(1, Ordering::SeqCst));
     let _ = std::fs::remove_dir_all(&dir);
@@ -227,9 +232,12 @@ pub fn run_kestrel_wired(w: &World, args: &[String], wiring: &Wiring) -> CliObs 
         _ => { let _ = so.read_to_end(&mut v); } } } v });
     let terr = std::thread::spawn(move || { let mut v = vec![]; let _ = se.read_to_end(&mut v); v });
     let t0 = Instant::now();
+    let pid = child.id(); let mut hwm = 0usize;
     let status = loop {
-        match child.try_wait() { Ok(Some(s)) => break Some(s), Ok(None) => { if t0.elapsed() > Duration::from_secs(30) { let _ = child.kill(); let _ = child.wait(); obs.timed_out = true; break None; } std::thread::sleep(Duration::from_millis(2)); } Err(_) => break None }
+        if let Ok(st) = std::fs::read_to_string(format!("/proc/{}/status", pid)) { if let Some(l) = st.lines().find(|l| l.starts_with("VmHWM:")) { if let Some(v) = l.split_whitespace().nth(1).and_then(|x| x.parse::<usize>().ok()) { hwm = hwm.max(v); } } }
+        match child.try_wait() { Ok(Some(s)) => break Some(s), Ok(None) => { if t0.elapsed() > Duration::from_secs(wiring_timeout(wiring)) { let _ = child.kill(); let _ = child.wait(); obs.timed_out = true; break None; } std::thread::sleep(Duration::from_millis(2)); } Err(_) => break None }
     };
+    obs.peak_rss_kb = hwm;
     let _ = tin.join();
     obs.stdout = tout.join().unwrap_or_default();
     obs.stderr = String::from_utf8_lossy(&terr.join().unwrap_or_default()).to_string();
